@@ -16,6 +16,7 @@ import (
 	"github.com/paulmach/orb/encoding/wkt"
 	"github.com/paulmach/orb/geo"
 	"github.com/paulmach/orb/geojson"
+	"github.com/paulmach/orb/maptile"
 	"github.com/paulmach/orb/maptile/tilecover"
 	"github.com/paulmach/orb/planar"
 	"github.com/paulmach/orb/project"
@@ -344,6 +345,92 @@ func main() {
 		l := c.Local().(*loc)
 		l.reset(c.Choose(len(coords) / 2))
 		check(c, l.g.Kind(c, gg.KCollection, 0, true))
+	})
+	// multi-geometries as the combination of their members at map scale (the grammar above has coordinates in
+	// [-2,3], where every tile cover is a single tile): members that are disjoint, touching, overlapping, nested
+	members := []orb.Polygon{
+		{{{-40, -40}, {40, -40}, {40, 40}, {-40, 40}, {-40, -40}}},
+		{{{-10, -10}, {10, -10}, {10, 10}, {-10, 10}, {-10, -10}}},
+		{{{0, 0}, {60, 0}, {60, 60}, {0, 60}, {0, 0}}},
+		{{{50, -60}, {80, -60}, {65, -20}, {50, -60}}},
+		{{{-40, -40}, {40, -40}, {40, 40}, {-40, 40}, {-40, -40}}, {{-10, -10}, {-10, 10}, {10, 10}, {10, -10}, {-10, -10}}},
+		{{{40, -40}, {70, -40}, {70, 40}, {40, 40}, {40, -40}}},
+	}
+	r.Explore("map-scale-combination", fmt.Sprintf("every ordered pair and triple of %d map-scale polygons x zoom 0..7: tilecover of the multi-polygon, of the collection of polygons, of the multi-line-string / collection of their rings and of the multi-point / collection of their vertices equals the union of the typed member covers; geo.Area, geo.Length and planar.Area sum over the members", len(members)), mc.Opts{MaxDev: -1}, func(c *mc.Ctx) {
+		z := maptile.Zoom(c.Choose(8))
+		n := 2 + c.Choose(2)
+		var mp orb.MultiPolygon
+		var mls orb.MultiLineString
+		var pts orb.MultiPoint
+		var colP, colL, colPt orb.Collection
+		wantP, wantL, wantPt := maptile.Set{}, maptile.Set{}, maptile.Set{}
+		area, parea, length := 0.0, 0.0, 0.0
+		for i := 0; i < n; i++ {
+			p := members[c.Choose(len(members))]
+			s, err := tilecover.Polygon(p, z)
+			if err != nil {
+				c.Failf("map-scale-combination", "tilecover.Polygon(%v,%d): %v", p, z, err)
+				return
+			}
+			wantP.Merge(s)
+			mp = append(mp, p)
+			colP = append(colP, p)
+			area += geo.Area(p)
+			parea += planar.Area(p)
+			length += geo.Length(p)
+			for _, ring := range p {
+				ls := orb.LineString(ring)
+				wantL.Merge(tilecover.LineString(ls, z))
+				mls = append(mls, ls)
+				colL = append(colL, ls)
+				for _, v := range ring {
+					wantPt.Merge(tilecover.Point(v, z))
+					pts = append(pts, v)
+					colPt = append(colPt, v)
+				}
+			}
+		}
+		same := func(a, want maptile.Set) bool {
+			k := 0
+			for t, v := range a {
+				if v {
+					k++
+					if !want[t] {
+						return false
+					}
+				}
+			}
+			return k == len(want)
+		}
+		type tc struct {
+			what string
+			g    orb.Geometry
+			want maptile.Set
+		}
+		for _, t := range []tc{{"multi-polygon", mp, wantP}, {"collection of polygons", colP, wantP}, {"collection holding the multi-polygon", orb.Collection{mp}, wantP},
+			{"multi-line-string", mls, wantL}, {"collection of line strings", colL, wantL}, {"multi-point", pts, wantPt}, {"collection of points", colPt, wantPt}} {
+			got, err := tilecover.Geometry(t.g, z)
+			if err != nil || !same(got, t.want) {
+				c.Failf("collection-combination", "tilecover.Geometry of the %s at zoom %d has %d tiles (err %v), the union of the typed member covers has %d | %v", t.what, z, len(got), err, len(t.want), t.g)
+				return
+			}
+		}
+		if got, err := tilecover.MultiPolygon(mp, z); err != nil || !same(got, wantP) {
+			c.Failf("collection-combination", "tilecover.MultiPolygon at zoom %d has %d tiles (err %v), the union of the tilecover.Polygon member covers has %d | %v", z, len(got), err, len(wantP), mp)
+		}
+		close := func(a, b float64) bool { return math.Abs(a-b) <= 1e-9*math.Max(math.Abs(a), math.Abs(b)) }
+		for _, g := range []orb.Geometry{mp, colP, orb.Collection{mp}} {
+			if a := geo.Area(g); !close(a, area) {
+				c.Failf("collection-combination", "geo.Area(%v) = %v, sum over members %v", g, a, area)
+			}
+			if a := planar.Area(g); !close(a, parea) {
+				c.Failf("collection-combination", "planar.Area(%v) = %v, sum over members %v", g, a, parea)
+			}
+			if l := geo.Length(g); !close(l, length) {
+				c.Failf("collection-combination", "geo.Length(%v) = %v, sum over members %v", g, l, length)
+			}
+		}
+		c.NonTrivial()
 	})
 	_ = mvt.DefaultExtent
 	r.Sample(map[string]interface{}{"input": "MultiPolygon{{}, {{{0,0},{2,0},{2,2}}}} (a zero-ring polygon inside a multi-polygon)", "entry_points": len(reg)})
